@@ -58,6 +58,11 @@ impl Tagger for Chooser {
     }
 }
 
+struct QuietTag;
+impl Tagger for QuietTag {
+    fn tag(&self, _: &'static str) {}
+}
+
 /// Shapes that, when present, are the likeliest reason for a failure (priority order).
 const SUSPECT: [&str; 24] = [
     "nan-reserved-eov",
@@ -779,6 +784,195 @@ fn main() {
         });
         let d = files.lock().unwrap().len() as u64;
         ctx.add_distinct(d, d);
+
+        // (5) large dictionaries: 127 / 128 / 129 / 140 / 300 string-map or contig entries, natural
+        // order and explicit (natural, permuted) IDX; records referencing the entries at indices 1, 126,
+        // 127, 128, 129, last as INFO key, FORMAT key, FILTER and multi-FILTER lists in every order
+        ctx.rule(
+            "large dictionaries: zone {INFO, FILTER, FORMAT, contig} x entries {127,128,129,140,300} x IDX {implicit, \
+             natural, permuted} x fileformat {4.3,4.4} x records referencing the entries at indices 1,2,126..129,last-1,last \
+             (INFO key, two INFO keys, FORMAT key, single FILTER, FILTER lists ascending/descending/mixed, CHROM); all \
+             stages of the per-record check",
+        );
+        let big = gvcf::bigdict::cases(&[(4, 3), (4, 4)]);
+        let big_envs: Vec<Env> = big.iter().map(|c| Env::from_hdr(c.hdr.clone(), Purpose::Bcf)).collect();
+        let big_cases: Vec<(usize, usize)> =
+            big.iter().enumerate().flat_map(|(e, c)| (0..c.recs.len()).map(move |r| (e, r))).collect();
+        ctx.sweep(
+            "bcf_large_dictionary",
+            big_cases.len() as u64,
+            |i| {
+                let (e, r) = big_cases[i as usize];
+                format!("header=gvcf::bigdict::big_header({}) record {} = {}", big[e].name, big[e].recs[r].0, big[e].recs[r].1.show())
+            },
+            |i| {
+                let (e, r) = big_cases[i as usize];
+                let (label, rec) = &big[e].recs[r];
+                let g = Generated { rec: rec.clone(), expect: Expect::Exact, shapes: vec![] };
+                let dec = || format!("header=gvcf::bigdict::big_header({}) record {label} = {}", big[e].name, rec.show());
+                // every record of this family is valid and representable: a rejection is judged too
+                if let Err(f) = io::bcf_write(&big_envs[e].header, &[rec.to_record_buf()]) {
+                    let what = label.split('[').next().unwrap_or(label).to_string();
+                    let mut v = fail_violation("write", &f, "large-dictionary", dec(), "Ok (the record is valid and representable)");
+                    v.fingerprint = format!("family=large-dictionary ref={what} {}", v.fingerprint);
+                    return Err(v);
+                }
+                check_bcf(&QuietTag, &big_envs[e], &g, &dec).map_err(|mut v| {
+                    let what = label.split('[').next().unwrap_or(label).to_string();
+                    v.fingerprint = format!("family=large-dictionary ref={what} {}", v.fingerprint);
+                    v
+                })
+            },
+        );
+        ctx.add_distinct(big_cases.len() as u64, big_cases.len() as u64);
+
+        // (6) one writer instance: accepted, REJECTED, accepted — the file must hold exactly the accepted
+        // records (a rejected record must leave nothing behind, neither bytes nor state)
+        ctx.rule(
+            "one BCF writer instance: [a, R, b], [R, a], [a, R] for every rejection reason R the model knows x accepted \
+             records a, b in {full, empty, no-info, format-gt-only} x fileformat {4.3, 4.5}; the file read back (raw \
+             parser, reused and fresh RecordBuf, lazy) holds exactly the accepted records",
+        );
+        let op_ffs = [1usize, 3];
+        let acc_names = ["full", "empty", "no-info", "format-gt-only"];
+        let rej: Vec<Vec<(String, Rec)>> = op_ffs.iter().map(|&fi| gvcf::multi::rejects(FILE_FORMATS[fi], true)).collect();
+        let acc: Vec<Vec<(String, Rec)>> = op_ffs
+            .iter()
+            .map(|&fi| sets[fi].iter().filter(|(n, _)| acc_names.contains(&n.as_str())).cloned().collect())
+            .collect();
+        // (ff slot, reject index, shape): shape 0..16 = [a,R,b], 16..20 = [R,a], 20..24 = [a,R]
+        let mut op_cases: Vec<(usize, usize, usize)> = Vec::new();
+        for f in 0..op_ffs.len() {
+            for r in 0..rej[f].len() {
+                for shape in 0..24 {
+                    op_cases.push((f, r, shape));
+                }
+            }
+        }
+        let not_rejected = Mutex::new(std::collections::BTreeSet::new());
+        let seq_of = |f: usize, r: usize, shape: usize| -> Vec<(bool, &(String, Rec))> {
+            let rr = &rej[f][r];
+            match shape {
+                0..=15 => vec![(true, &acc[f][shape / 4]), (false, rr), (true, &acc[f][shape % 4])],
+                16..=19 => vec![(false, rr), (true, &acc[f][shape - 16])],
+                _ => vec![(true, &acc[f][shape - 20]), (false, rr)],
+            }
+        };
+        ctx.sweep(
+            "bcf_writer_reject_sequences",
+            op_cases.len() as u64,
+            |i| {
+                let (f, r, shape) = op_cases[i as usize];
+                let seq = seq_of(f, r, shape);
+                format!(
+                    "fileformat={:?} header=gvcf::gen_::rich_header(ff,2 samples) one bcf::io::Writer: {}",
+                    FILE_FORMATS[op_ffs[f]],
+                    seq.iter().map(|(a, x)| format!("{}{} {}", if *a { "accept " } else { "REJECT " }, x.0, x.1.show())).collect::<Vec<_>>().join(" ; ")
+                )
+            },
+            |i| {
+                let (f, r, shape) = op_cases[i as usize];
+                let seq = seq_of(f, r, shape);
+                let reason = rej[f][r].0.as_str();
+                let header = &m_hdrs[op_ffs[f]];
+                let rbs: Vec<_> = seq.iter().map(|(_, x)| x.1.to_record_buf()).collect();
+                let (bytes, res) = match io::bcf_write_ops(header, &rbs) {
+                    Ok(x) => x,
+                    Err(fl) => return Err(fail_violation("ops-write", &fl, reason, String::new(), "Ok or Err per record")),
+                };
+                let mut exp: Vec<&Rec> = Vec::new();
+                for ((is_acc, x), rs) in seq.iter().zip(&res) {
+                    match (is_acc, rs) {
+                        (true, Ok(())) => exp.push(&x.1),
+                        (true, Err(e)) => {
+                            return Err(Violation::new(
+                                format!("stage=ops-write symptom=valid-record-rejected after=reject:{reason}"),
+                                String::new(),
+                                "Ok (the same record is accepted by a fresh writer)",
+                                e.clone(),
+                            ));
+                        }
+                        (false, Err(_)) => {}
+                        (false, Ok(())) => {
+                            // not a rejection for this writer: nothing to judge in this case
+                            not_rejected.lock().unwrap().insert(reason.to_string());
+                            return Ok(());
+                        }
+                    }
+                }
+                // independent byte oracle: the stream a fresh writer produces for the accepted records alone
+                let fresh: Vec<_> = exp.iter().map(|e| e.to_record_buf()).collect();
+                match io::bcf_write(header, &fresh) {
+                    Ok(want) if want == bytes => {}
+                    Ok(want) => {
+                        return Err(Violation::new(
+                            format!("stage=ops-write symptom=rejected-record-left-bytes reject={reason}"),
+                            String::new(),
+                            format!("{} bytes: exactly the accepted records (a write that returns Err leaves nothing behind)", want.len()),
+                            vmc::diff_bytes(&want, &bytes),
+                        ));
+                    }
+                    Err(fl) => return Err(fail_violation("ops-write", &fl, reason, String::new(), "Ok")),
+                }
+                match bcfraw::parse_stream(&bytes) {
+                    Ok(st) if st.records.len() == exp.len() => {}
+                    Ok(st) => {
+                        return Err(Violation::new(
+                            format!("stage=ops-raw symptom=record-count reject={reason}"),
+                            String::new(),
+                            format!("{} records", exp.len()),
+                            format!("{}", st.records.len()),
+                        ));
+                    }
+                    Err(e) => {
+                        return Err(Violation::new(
+                            format!("stage=ops-raw symptom=malformed-stream reject={reason}"),
+                            String::new(),
+                            "exactly the accepted records, well-formed",
+                            e,
+                        ));
+                    }
+                }
+                for api in [0usize, 2, 3] {
+                    let api_name = io::READ_APIS[api];
+                    let got = match io::bcf_read_file(&bytes, api, exp.len()) {
+                        Ok(g) => g,
+                        Err(fl) => {
+                            let mut v = fail_violation("ops-read", &fl, reason, String::new(), "the accepted records read back");
+                            v.fingerprint = format!("{} api={api_name}", v.fingerprint);
+                            return Err(v);
+                        }
+                    };
+                    if got.len() != exp.len() {
+                        return Err(Violation::new(
+                            format!("stage=ops-read api={api_name} symptom=record-count reject={reason}"),
+                            String::new(),
+                            format!("{} records", exp.len()),
+                            format!("{}", got.len()),
+                        ));
+                    }
+                    for (k, (e, g)) in exp.iter().zip(&got).enumerate() {
+                        if let Some(d) = diff_rec(e, g, FloatMode::Bits) {
+                            return Err(Violation::new(
+                                format!("stage=ops-read api={api_name} reject={reason} {}", d.fp()),
+                                String::new(),
+                                format!("accepted record {k} == what was written"),
+                                d.detail,
+                            ));
+                        }
+                    }
+                }
+                Ok(())
+            },
+        );
+        ctx.add_distinct(op_cases.len() as u64, op_cases.len() as u64);
+        ctx.extra(
+            "writer_reject_sequences_reasons",
+            vmc::json!({
+                "rejected": rej[0].iter().map(|x| x.0.clone()).filter(|n| !not_rejected.lock().unwrap().contains(n)).collect::<Vec<_>>(),
+                "accepted_by_this_writer_not_judged": not_rejected.lock().unwrap().iter().cloned().collect::<Vec<_>>(),
+            }),
+        );
 
         let st = stats.lock().unwrap();
         let accepted: u64 = st.iter().filter(|(k, _)| k.ends_with("writer-accepted")).map(|x| *x.1).sum();
